@@ -209,6 +209,48 @@ fn occurs_shapes() -> Vec<Plan> {
     ]
 }
 
+/// `case (drop wit) (drop e)` with `e : A → T(A)` built from pair/injl/injr/iden: the witness
+/// node's target is unified with a type in which one not-yet-finalized variable occurs several
+/// times (along several paths) before anything is finalized
+fn multi_occurrence(ctx: &mut Ctx, depth: usize) -> Plan {
+    use PNode::*;
+    fn tree(ctx: &mut Ctx, nodes: &mut Vec<PNode>, iden: usize, d: usize) -> usize {
+        if d == 0 || ctx.rng.below(5) == 0 {
+            return iden;
+        }
+        match ctx.rng.below(6) {
+            0 => {
+                let c = tree(ctx, nodes, iden, d - 1);
+                nodes.push(InjL(c));
+            }
+            1 => {
+                let c = tree(ctx, nodes, iden, d - 1);
+                nodes.push(InjR(c));
+            }
+            _ => {
+                let a = tree(ctx, nodes, iden, d - 1);
+                let b = tree(ctx, nodes, iden, d - 1);
+                nodes.push(Pair(a, b));
+            }
+        }
+        nodes.len() - 1
+    }
+    let mut nodes = vec![Iden];
+    let e = tree(ctx, &mut nodes, 0, depth);
+    nodes.push(Drop(e));
+    let de = nodes.len() - 1;
+    nodes.push(Witness);
+    let w = nodes.len() - 1;
+    nodes.push(Drop(w));
+    let dw = nodes.len() - 1;
+    if ctx.rng.bool() {
+        nodes.push(Case(dw, de));
+    } else {
+        nodes.push(Case(de, dw));
+    }
+    Plan { nodes }.compacted()
+}
+
 /// deeply shared: pair e e repeated `k` times under a unit (types double, DAG stays linear)
 fn doubling(k: usize, ill: bool) -> Plan {
     use PNode::*;
@@ -318,6 +360,11 @@ pub fn one(ctx: &mut Ctx, plan: &Plan, program: bool, kind: &str, to_model: bool
         }
         Err(k) => {
             ctx.count(&format!("reach:rejected-{k}"));
+            // plans of the type-directed generator and the multi-occurrence shapes are typable by
+            // construction: "finalises exactly when its constraints have a finite solution"
+            if kind == "well-typed" || kind == "multi-occurrence" {
+                ctx.fail("well-typed-rejected", &line, &format!("a program that is well-typed by construction is rejected ({k})"));
+            }
         }
     }
     if ctx.want_sample() && nontrivial {
@@ -338,6 +385,10 @@ pub fn run(ctx: &mut Ctx) {
     for k in [20usize, 30] {
         one(ctx, &doubling(k, false), true, "doubling-wide", false);
         one(ctx, &doubling(k, true), true, "doubling-wide-ill", false);
+    }
+    for k in 0..ctx.scale(120, 3000) {
+        let p = multi_occurrence(ctx, 1 + (k % 4) as usize);
+        one(ctx, &p, false, "multi-occurrence", true);
     }
     let n = ctx.scale(500, 12_000);
     let mut it = 0u64;
